@@ -40,6 +40,10 @@ CLAIMED = {
    text="Coq theorems over the reals (libm functions as oracles instantiated by exp, ln, sqrt, x^k): exp, log (positive argument, else raise), sqrt, tanh = 1-2/(1+exp 2x) and the logistic function return exactly [f lo, f hi] = [min f, max f]; abs returns exactly [min|x|, max|x|] with both ends attained; X**k encloses x^k for every k >= 0 and every sign of X; for k < 0 it encloses 1/x^|k| when 0 is outside X and raises ZeroDivisionError when a pole lies in X; sin / cos PARTIAL (only intervals at least one period wide are theorems). Tie: bit-exact in-Coq run of the scalar and array case tables of sin/cos/tan (incl. argument reduction and masks), abs/sqrt/exp/log, tanh, sigmoid, __pow__, with libm values and float remainders as recorded tables + dense-sampling enclosure / exactness oracle + array-vs-scalar comparison.",
    note="Partial: the sin/cos/tan case tables for intervals shorter than a period are not Coq theorems (differential run + dense sampling only). numpy libm and % are oracles; numpy.pi is the binary64 literal, theorems use the real PI. Known finding O28 (array form vs scalar form on the pi/2 grid).",
    technique="Coq proofs of exactness / enclosure with libm as oracle + in-Coq differential run of the case tables + dense-sampling oracle", ref="5/C05"),
+ "C13": dict(
+   text="Coq theorems over a deep-embedded grammar of response functions (+ - * / x^k exp sqrt, repeated variables, any depth, any dimension): direct interval evaluation encloses the point value for every point of the box (fundamental theorem of interval arithmetic, by induction on the expression, on top of the C01/C05 theorems); the tiles of subintervalise cover the box; subinterval reconstitution with direct evaluation encloses the true range; the vertex method returns exactly the min/max over the 2^d corners, both attained at points of the box (hence inside the true range). Tie: each random function is rendered as a Python callable and as a Coq term; b2b(direct | endpoints | subinterval/direct | subinterval/endpoints), n_sub 1..8, d 1..4, compared bit-exactly with the model + nesting relations against a sampled range + tiling check.",
+   note="Partial: containment of subinterval/direct in the un-subdivided direct result and 'subinterval/endpoints between vertex and true range' are oracle-checked here (isotonicity is C12's theorem); exactness of the vertex method for coordinate-wise monotone functions is not proved. numpy.exp enters as recorded table; functions with x**k, k>2 are oracle-only (numpy libm power). ga / bo / cauchy strategies are outside the property.",
+   technique="Coq proof by structural induction over the expression grammar + in-Coq differential run of all four strategies + sampled-range oracle", ref="5/C13"),
 }
 NA_REASON = "no check registered yet in this revision of the framework (work in progress, see DESIGN.md section 9)"
 base = json.load(open("/root/.vp/BASELINE.json"))
